@@ -72,3 +72,27 @@ Proof. exact cancel_final. Qed.
 Example C11_cancelled_states_cover :
   In (st_cancelled_of 2) cancelled_states /\ In (st_cancelled_of 3) cancelled_states.
 Proof. split; cbn; tauto. Qed.
+
+(* ---- the reinitialisation path: the airgapped machine carries the round's operations out again
+   inside ONE reinit operation (Air/Reinit.v; repaired by d24be93: a refusal used to be swallowed) ---- *)
+Require Import Air.Reinit Air.ReinitProofs.
+
+(* the reinit operation ends successfully only if EVERY embedded operation of its round was carried
+   out (ri_ok for the responses step: every private deal consistent with its dealer's commitments)
+   and the round's share is in the database *)
+Theorem C11_reinit_success_means_all_accepted :
+  forall outer m ops m', handle_reinit outer m ops = (m', true) ->
+  (forall o, In o ops -> ri_round o = outer -> ri_ok o = true) /\ mem outer (rm_shares m') = true.
+Proof. exact reinit_success_means_all_accepted. Qed.
+Print Assumptions C11_reinit_success_means_all_accepted.
+
+(* a refusal before the master-key step - a contradicting private deal at the responses step - ends
+   the reinit operation unsuccessfully and leaves no key share for the round *)
+Theorem C11_reinit_refusal_stores_no_share :
+  forall outer m pre bad post,
+  mem outer (rm_shares m) = false ->
+  (forall o, In o pre -> ri_round o = outer -> ri_kind o <> IkMaster) ->
+  ri_round bad = outer -> ri_ok bad = false ->
+  let res := handle_reinit outer m (pre ++ bad :: post) in
+  snd res = false /\ mem outer (rm_shares (fst res)) = false.
+Proof. exact refusal_before_master_key_stores_no_share. Qed.
